@@ -11,6 +11,9 @@ decorators, including the lazily registered numpy/pandas/pyarrow blocks):
  TAB.type-tag      builtin container normalisers carry a type tag (list vs tuple vs dict vs set)
  EFFECT.entropy    every uuid4()/id() is dominated by _maybe_raise_nondeterministic (entropy only on
                    the documented non-deterministic fallback)
+ INJ.alternatives  two encodings of different input kinds that fill one untagged token slot (try/except
+                   fast paths) are exclusive: the handler is unreachable by the builtin raise contracts, or
+                   the alternatives are tagged
  TOT.registered    the registration table has not shrunk
 Not decided: collision freedom of the hash function; pandas/pyarrow internals.
 """
@@ -47,6 +50,43 @@ def _hashed_exprs(f):
     return [c for c in calls(f, "hash_buffer_hex")]
 
 
+def _body_raises(assign):
+    """Exception types the value of an assignment can raise, from the builtin contracts of the
+    operations it is made of; second result: operations outside the table."""
+    raises, unknown = set(), []
+    for k in ast.walk(assign.value):
+        if not isinstance(k, ast.Call):
+            continue
+        nm = call_name(k)
+        if nm == "hash_buffer_hex":
+            continue  # hashing a bytes object does not raise
+        if isinstance(k.func, ast.Attribute) and k.func.attr == "join" and isinstance(k.func.value, ast.Constant) and isinstance(k.func.value.value, (str, bytes)):
+            raises.add("TypeError")
+        elif isinstance(k.func, ast.Attribute) and k.func.attr == "encode":
+            raises.add("UnicodeEncodeError")
+        elif isinstance(k.func, ast.Attribute) and k.func.attr == "decode":
+            raises.add("UnicodeDecodeError")
+        else:
+            unknown.append(unparse(k)[:40])
+    return raises, unknown
+
+
+def _may_catch(handler_name, raised_name):
+    import builtins
+
+    h = getattr(builtins, handler_name.split(".")[-1], None)
+    r = getattr(builtins, raised_name, None)
+    if not (isinstance(h, type) and isinstance(r, type)):
+        return True  # unknown exception class: assume it can catch
+    return issubclass(r, h)
+
+
+def _tag_of(value):
+    if isinstance(value, ast.Tuple) and value.elts and isinstance(value.elts[0], ast.Constant) and isinstance(value.elts[0].value, str):
+        return value.elts[0].value
+    return None
+
+
 def check(ctx):
     model = ctx.model
     mod = model.module(TOK)
@@ -61,7 +101,7 @@ def check(ctx):
             funcs.append(f)
     helpers = [mod.func(n) for n in ("_normalize_seq_func", "_normalize_pickle", "_normalize_pure_object", "_normalize_dataclass", "_tokenize") if mod.has(n)]
 
-    n_join = n_flat = n_buf = n_sort = 0
+    n_join = n_flat = n_buf = n_sort = n_alt = 0
     for f in funcs + helpers:
         # ---------------- INJ.join
         for c in calls(f, "join"):
@@ -98,6 +138,43 @@ def check(ctx):
                 ok,
                 "element lengths are hashed alongside" if ok else "a separator-join of variable-length elements is hashed without their lengths: ['a-b','c'] and ['a','b-c'] collide",
             )
+        # ---------------- INJ.alternatives
+        # try: V = hash(<encoding A>)  except E: V = hash(<encoding B>) -- two encodings of *different
+        # input kinds* land in one untagged slot of the token.  That is only injective if at most one
+        # of them is live.  Liveness of the handler is decided from what the operations of the try
+        # body can raise (builtin contracts: str.join/bytes.join -> TypeError, str.encode ->
+        # UnicodeEncodeError, bytes.decode -> UnicodeDecodeError); an operation outside the table
+        # makes the question undecidable here (unrecognised, never a guess).
+        for t in [n for n in walk_no_nested(f) if isinstance(n, ast.Try)]:
+            def _hashed_assigns(stmts):
+                out = []
+                for s_ in stmts:
+                    if isinstance(s_, ast.Assign) and len(s_.targets) == 1 and isinstance(s_.targets[0], ast.Name) and any(isinstance(k, ast.Call) and call_name(k) == "hash_buffer_hex" for k in ast.walk(s_.value)):
+                        out.append(s_)
+                return out
+            body_as = _hashed_assigns(t.body)
+            for h in t.handlers:
+                for ha in _hashed_assigns(h.body):
+                    for ba in body_as:
+                        if ba.targets[0].id != ha.targets[0].id:
+                            continue
+                        if unparse(ba.value) == unparse(ha.value).replace(".copy()", ""):
+                            continue  # the same encoding retried on a copy: one function of the value
+                        n_alt += 1
+                        raises, unknown = _body_raises(ba)
+                        names = [unparse(x) for x in (h.type.elts if isinstance(h.type, ast.Tuple) else [h.type])] if h.type is not None else ["BaseException"]
+                        live = any(_may_catch(nm, r) for nm in names for r in raises)
+                        tagged = _tag_of(ba.value) is not None and _tag_of(ha.value) is not None and _tag_of(ba.value) != _tag_of(ha.value)
+                        if tagged:
+                            ok, why = True, "alternatives carry distinct tags"
+                        elif unknown and not live:
+                            ok, why = None, f"cannot decide whether `except {', '.join(names)}` is reachable: operations outside the contract table: {unknown}"
+                        elif live:
+                            ok, why = False, (f"`except {', '.join(names)}` is reachable ({sorted(raises)} can be raised by the first encoding) and both encodings fill the same untagged token slot "
+                                              f"`{ba.targets[0].id}`: values of different kinds with the same encoded bytes (['a','bc'] vs [b'a',b'bc']) share a token")
+                        else:
+                            ok, why = True, f"the alternative is unreachable: the first encoding raises only {sorted(raises)}, the handler catches {names}"
+                        ctx.ob("INJ.alternatives", ha, f"{f.name}: alternative encodings of `{ba.targets[0].id}` ({unparse(ba.value)[:40]}… | {unparse(ha.value)[:40]}…) are distinguishable or exclusive", ok, why)
         # ---------------- INJ.layout
         for c in calls(f, "ravel"):
             inside_hash = False
@@ -169,10 +246,12 @@ def check(ctx):
     ctx.count("hashed_flattenings", n_flat)
     ctx.count("raw_buffer_hashes", n_buf)
     ctx.count("canonical_sorts", n_sort)
+    ctx.count("alternative_encodings", n_alt)
     ctx.floor("hashed_joins", 2)
     ctx.floor("hashed_flattenings", 1)
     ctx.floor("raw_buffer_hashes", 2)
     ctx.floor("canonical_sorts", 2)
+    ctx.floor("alternative_encodings", 1)
 
     # ---------------- TAB.type-tag
     tags = {}
@@ -235,6 +314,7 @@ def check(ctx):
 
 
 VARIANTS = [
+    (TOK, "                except UnicodeDecodeError:\n                    # bytes fast-path", "                except TypeError:\n                    # bytes fast-path", "INJ.alternatives"),
     (TOK, '                data = hash_buffer_hex(x.ravel(order="C").view("i1"))', '                data = hash_buffer_hex(x.ravel(order="K").view("i1"))', "INJ.layout"),
     (TOK, "                data = data, hash_buffer_hex(\n                    np.fromiter(map(len, x.flat), dtype=\"i8\", count=x.size)\n                )\n", "", "INJ.join"),
     (TOK, "        return hash_buffer_hex(np.ascontiguousarray(mm)), mm.dtype, mm.shape", "        return hash_buffer_hex(np.ascontiguousarray(mm))", "INJ.typed-buffer"),
